@@ -22,6 +22,9 @@ import (
 	"veriftxn/common"
 	_ "veriftxn/unibk"
 
+	"github.com/pingcap/kvproto/pkg/errorpb"
+	"github.com/pingcap/kvproto/pkg/kvrpcpb"
+	"github.com/tikv/client-go/v2/config"
 	tikverr "github.com/tikv/client-go/v2/error"
 	"github.com/tikv/client-go/v2/tikvrpc"
 	"github.com/tikv/client-go/v2/txnkv/txnsnapshot"
@@ -307,6 +310,84 @@ func main() {
 			}
 		}
 	}
+	// Faulted reads: one reader transaction (its snapshot is reused by all its reads) over committed data
+	// in 2-3 regions, with deviations at its read RPCs - a non-retriable store answer (key error "abort")
+	// for one region's part of a read, a lost request, NotLeader, the store unreachable for that command
+	// from here on - and one preemption, so that the parts of a fanned-out batch get answer in either
+	// order. A read may fail; a read that succeeds must report exactly the committed pairs, and so must
+	// every later read of the same snapshot (nothing learned from a failed read may stick).
+	abortAnswer := func(req *tikvrpc.Request) *tikvrpc.Response {
+		ke := &kvrpcpb.KeyError{Abort: "injected abort"}
+		switch req.Type {
+		case tikvrpc.CmdGet:
+			return &tikvrpc.Response{Resp: &kvrpcpb.GetResponse{Error: ke}}
+		case tikvrpc.CmdBatchGet:
+			return &tikvrpc.Response{Resp: &kvrpcpb.BatchGetResponse{Error: ke}}
+		case tikvrpc.CmdScan:
+			return &tikvrpc.Response{Resp: &kvrpcpb.ScanResponse{Error: ke}}
+		}
+		return nil
+	}
+	for _, bk := range common.BackendsTier(run.Thorough()) {
+		for _, lo := range common.Layouts(true) {
+			if lo.Name == "1region" {
+				continue
+			}
+			for _, async := range []bool{false, true} {
+				bk, lo, async := bk, lo, async
+				name := fmt.Sprintf("%s/%s/faulted-reads/async-batch-get=%v", bk.Name, lo.Name, async)
+				rops := []txnh.Op{{Kind: "bget", Keys: []string{"a", "b", "c"}}, op("get", "a"), op("get", "c"), {Kind: "bget", Keys: []string{"a", "b", "c"}}, {Kind: "iter", Hi: "d"}, commit}
+				FR := 1
+				if run.Thorough() {
+					FR = 2
+				}
+				mk := func() *txnh.TxnScenario {
+					sc := &txnh.TxnScenario{ID: name, NewBackend: func() txnh.Backend { return bk.New(lo.Splits) }, Keys: keys,
+						Progs: [][]txnh.Program{{{Mode: txnh.Mode{}, Ops: rops}}}}
+					var restore func()
+					sc.SetupFn = func(s *txnh.TxnScenario) {
+						common.SeedKey(s, "a", "base-a", "b", "base-b", "c", "base-c")
+						old := config.GetGlobalConfig().EnableAsyncBatchGet
+						config.UpdateGlobal(func(c *config.Config) { c.EnableAsyncBatchGet = async })
+						restore = func() { config.UpdateGlobal(func(c *config.Config) { c.EnableAsyncBatchGet = old }) }
+					}
+					sc.MenuFn = func(s *txnh.TxnScenario, e *sched.Event) []sched.Dev {
+						req, ok := e.Payload.(*tikvrpc.Request)
+						if e.Actor != 0 || e.Kind != sched.KRPC || !ok || abortAnswer(req) == nil {
+							return nil
+						}
+						return []sched.Dev{
+							{Name: "abort", Kind: txnh.DevAnswer, Arg: abortAnswer},
+							{Name: "drop-req", Kind: txnh.DevDropReq},
+							{Name: "down-req", Kind: txnh.DevDownReq},
+							{Name: "not-leader", Kind: txnh.DevRegionErr, Arg: &errorpb.Error{Message: "injected", NotLeader: &errorpb.NotLeader{RegionId: req.Context.GetRegionId()}}},
+						}
+					}
+					sc.CheckFn = func(s *txnh.TxnScenario, x *sched.Exec) []sched.Violation {
+						if restore != nil {
+							restore()
+						}
+						t := txnh.ReadTruth(s.W.B, s.Keys)
+						t.Splits, t.Log = lo.Splits, s.W.Log()
+						var out []sched.Violation
+						for _, v := range txnh.AuditSI(s.H, t) {
+							v.Key = "faulted-read:" + v.Key
+							out = append(out, v)
+						}
+						return out
+					}
+					return sc
+				}
+				specs[name] = mk
+				jobs = append(jobs, sched.Job{Name: name, Run: func(dl time.Time) sched.Report {
+					sc := mk()
+					x := &sched.Explorer{Sc: sc, B: sched.Bounds{P: 1, F: FR, Horizon: 400, EarlyTimers: true, Deadline: dl}}
+					x.Outcome = func(e *sched.Exec) string { return sc.OutcomeString() }
+					return x.Explore(false)
+				}})
+			}
+		}
+	}
 	if common.HandleReplay(run, jobs, func(name string) sched.Scenario {
 		if mk, ok := specs[name]; ok {
 			return mk()
@@ -320,7 +401,7 @@ func main() {
 		Bounds: map[string]any{"crashes": F, "keys": keys, "scan_batch_sizes": []int{2, 3}, "bounds": []string{"", "a", "b", "bb", "c", "d"}},
 		Rule: "histories: two writers (3-key optimistic / delete+set; pessimistic or 2-key optimistic) x commit modes x layouts, crashed at every combination of <= 2 store RPCs (undelivered / delivered-unanswered), over committed base data; " +
 			"on each history, after the locks' TTL has passed: every snapshot ts in {base commit, each writer's start, each writer's commit, newest} x {get of each of 4 keys, batch get of every subset >= 2, forward and reverse scans over all bound pairs x batch size {2,3} x key-only, each read repeated on the warm snapshot, SetSnapshotTS to every other ts and back} on a cold client, plus a region split before each of the first RPCs of every scan / full batch get; " +
-			"every answer is compared with the MVCC truth of the final (fully resolved) state at that ts. distinct_nontrivial = distinct (writer outcomes, leftover lock sets) histories",
+			"every answer is compared with the MVCC truth of the final (fully resolved) state at that ts. Faulted reads: one reader transaction (batch get of 3 keys, gets, batch get again, scan - all on one snapshot) over 2-3 regions, both settings of EnableAsyncBatchGet, P=1 and 1 (thorough 2) deviations at its read RPCs out of {store answers key error abort, request lost, store unreachable from here on, NotLeader}: a read that succeeds reports exactly the committed pairs. distinct_nontrivial = distinct (writer outcomes, leftover lock sets) histories",
 		Assumptions: []string{
 			"writers that are still alive when the exploration ends are not judged (a reader may wait for them)",
 			"unbounded reverse scans are the recorded known finding of C01 and are not repeated here; on unistore reverse scans and unbounded forward scans are left out (store-side artefacts, see DESIGN change log)",
